@@ -145,3 +145,14 @@ pub fn show_ord(o: std::cmp::Ordering) -> &'static str {
         std::cmp::Ordering::Greater => "gt",
     }
 }
+
+/// serde_json as the independent strict parser, without its recursion limit of 128 levels (a
+/// deeper document is not ill-formed JSON)
+pub fn strict_json(text: &str) -> Result<serde_json::Value, serde_json::Error> {
+    use serde::Deserialize;
+    let mut de = serde_json::Deserializer::from_str(text);
+    de.disable_recursion_limit();
+    let v = serde_json::Value::deserialize(&mut de)?;
+    de.end()?;
+    Ok(v)
+}
